@@ -93,7 +93,8 @@ func positionContext(l *Input, line, col int) (context string) {
 		}
 	}
 
-	context += fmt.Sprintf("%5d: %s%s%s\n", line, ellipsisFront, string(rs), ellipsisRear)
-	context += fmt.Sprintf("%s^", strings.Repeat(" ", 6+col))
+	prefix := fmt.Sprintf("%5d: ", line)
+	context += fmt.Sprintf("%s%s%s%s\n", prefix, ellipsisFront, string(rs), ellipsisRear)
+	context += fmt.Sprintf("%s^", strings.Repeat(" ", len(prefix)-1+col))
 	return
 }
